@@ -29,7 +29,8 @@ VARIABLES
   apairAt,  \* <<axis, dir>> -> <<ch, note>> the axis direction put on the wire
   pos,      \* axis -> last raw position fed
   lastTx,   \* axis -> <<raw, composite receiver value>> of its last transmitted event
-  hap,      \* [on : a panic happened in this life, keys : keys held at a panic and not released since]
+  hap,      \* [on : a panic happened in this life, keys : keys held at a panic and not released since,
+            \*  axonly : only axis events so far (no key has been touched in this life)]
   viol      \* names of the predicates that were false in the last step
 
 vars == <<cfg, st, out, lastIn, lastBr, snd, ccv, pb, pairAt, apairAt, pos, lastTx, hap, viol>>
@@ -209,38 +210,47 @@ CCValueOK(v, q) ==
   /\ (q[1] = q[2] => v = 127)
   /\ (2 * q[1] = q[2] => v \in {63, 64})
 
+\* The receiver-side reading of "for every position ... the transmitted value is ...": after EVERY
+\* processed axis event the receiver holds the value of the current position (an event the engine
+\* chose not to transmit must not leave the receiver stale).  Nothing received at all is right only
+\* while the axis has never left its rest position.  Judged in lives made of axis events only
+\* (channel, mapping and cc-learning actions move or gate the controller by design: C07).
+RecvJudged(X) == IsAxisIn(X) /\ X.hap0.axonly
+
 C06_Controller(X) ==
-  (Transmitted(X) /\ AxisIsType(X.c, X.pre, X.in.a, "cc")) =>
+  (RecvJudged(X) /\ AxisIsType(X.c, X.pre, X.in.a, "cc")) =>
      LET ad == AxisDef(X.c, X.pre, X.in.a)
          info == X.c.axinfo[X.in.a]
-         v == Flipped(info, ad, ShapedOf(info, ad, X.in.raw))
+         sh == ShapedOf(info, ad, X.in.raw)
+         v == Flipped(info, ad, sh)
          cn == CanNeg(info, ad)
-         ch == (X.pre.chan + ad.off) % 16
-         chN == (X.pre.chan + ad.offNeg) % 16
+         kp == <<(X.pre.chan + ad.off) % 16, ad.cc>>
+         kn == <<(X.pre.chan + ad.offNeg) % 16, ad.ccNeg>>
          w == IF cn THEN v ELSE Twice1(v)
+         Has(k) == k \in DOMAIN X.ccv1
      IN IF ad.bidi
           THEN IF w[1] < 0
-                 THEN <<chN, ad.ccNeg>> \in DOMAIN X.ccv1 /\ CCValueOK(X.ccv1[<<chN, ad.ccNeg>>], <<-w[1], w[2]>>)
-                 ELSE <<ch, ad.cc>> \in DOMAIN X.ccv1 /\ CCValueOK(X.ccv1[<<ch, ad.cc>>], w)
-          ELSE <<ch, ad.cc>> \in DOMAIN X.ccv1 /\
-               CCValueOK(X.ccv1[<<ch, ad.cc>>], IF cn THEN <<v[1] + v[2], 2 * v[2]>> ELSE v)
+                 THEN IF Has(kn) THEN CCValueOK(X.ccv1[kn], <<-w[1], w[2]>>) ELSE sh[1] = 0
+                 ELSE IF Has(kp) THEN CCValueOK(X.ccv1[kp], w) ELSE sh[1] = 0
+          ELSE IF Has(kp) THEN CCValueOK(X.ccv1[kp], IF cn THEN <<v[1] + v[2], 2 * v[2]>> ELSE v) ELSE sh[1] = 0
 
 \* "0-16383 with 8192 as centre": the statement fixes the centre and the ends; between them both the
 \* linear map 16383*(b+1)/2 and the two-segment map through 8192 are readings of "the exact value"
 \* (they differ by at most 1/2), so a value within one step of either is accepted
 C06_PitchBend(X) ==
-  (Transmitted(X) /\ AxisIsType(X.c, X.pre, X.in.a, "pitch_bend")) =>
+  (RecvJudged(X) /\ AxisIsType(X.c, X.pre, X.in.a, "pitch_bend")) =>
      LET ad == AxisDef(X.c, X.pre, X.in.a)
+         info == X.c.axinfo[X.in.a]
          b == WorkPos(X.c, X.pre, X.in.a, X.in.raw)
          ch == (X.pre.chan + ad.off) % 16
-     IN /\ ch \in DOMAIN X.pb1
-        /\ LET v == X.pb1[ch]
-           IN /\ \/ Within1(v, 16383, <<b[1] + b[2], 2 * b[2]>>)
-                 \/ IF b[1] < 0 THEN Within1(8192 - v, 8192, <<-b[1], b[2]>>)
-                                ELSE Within1(v - 8192, 8191, b)
-              /\ (b[1] = 0 => v = 8192)
-              /\ (b[1] = b[2] => v = 16383)
-              /\ (b[1] = -b[2] => v = 0)
+     IN IF ch \notin DOMAIN X.pb1 THEN ShapedOf(info, ad, X.in.raw)[1] = 0
+        ELSE LET v == X.pb1[ch]
+             IN /\ \/ Within1(v, 16383, <<b[1] + b[2], 2 * b[2]>>)
+                   \/ IF b[1] < 0 THEN Within1(8192 - v, 8192, <<-b[1], b[2]>>)
+                                  ELSE Within1(v - 8192, 8191, b)
+                /\ (b[1] = 0 => v = 8192)
+                /\ (b[1] = b[2] => v = 16383)
+                /\ (b[1] = -b[2] => v = 0)
 
 \* consecutive transmitted events of one axis: the receiver value moves with the raw position
 C06_Monotone(X) ==
@@ -429,7 +439,7 @@ InitWith(c) ==
   /\ cfg = c /\ st = InitState(c) /\ out = <<>>
   /\ lastIn = [ev |-> "init"] /\ lastBr = "Init"
   /\ snd = {} /\ ccv = <<>> /\ pb = <<>> /\ pairAt = <<>> /\ apairAt = <<>> /\ pos = <<>>
-  /\ lastTx = <<>> /\ hap = [on |-> FALSE, keys |-> {}] /\ viol = {}
+  /\ lastTx = <<>> /\ hap = [on |-> FALSE, keys |-> {}, axonly |-> TRUE] /\ viol = {}
 
 \* r : result of Apply for input in;  o, sg, lst : what was observed
 Observe(in, r, o, sg, lst) ==
@@ -444,8 +454,9 @@ Observe(in, r, o, sg, lst) ==
                     THEN Put(lastTx, in.a, <<in.raw, Composite(cfg, st, in.a, X.ccv1, X.pb1), st.map, st.chan>>)
                     ELSE lastTx
      /\ hap' = IF in.ev \in {"press", "tap"} /\ r.br = "Panic"
-                 THEN [on |-> TRUE, keys |-> st.held \ DOMAIN cfg.actions]
-                 ELSE IF in.ev = "release" THEN [hap EXCEPT !.keys = @ \ {in.k}] ELSE hap
+                 THEN [on |-> TRUE, keys |-> st.held \ DOMAIN cfg.actions, axonly |-> FALSE]
+                 ELSE IF in.ev = "release" THEN [hap EXCEPT !.keys = @ \ {in.k}, !.axonly = FALSE]
+                 ELSE IF in.ev \in {"press", "tap"} THEN [hap EXCEPT !.axonly = FALSE] ELSE hap
      /\ viol' = Failed(X)
 
 \* the model's own step: the wire carries the prediction.  Bound is a predicate on the post
